@@ -1,2 +1,162 @@
-"""C09 - see tools/props/pfx_common.py and DESIGN.md section 4."""
-from props.pfx_common import run, replay  # noqa: F401
+"""C09 - update callbacks are a complete and exact change log of the prefix table.
+
+Table level (add / remove / remove-by-source / reload diff / free): tools/props/pfx_common.py, theorems C09_history,
+C09_free, C09_reload.  Cache-driven changes (application of a response, rollback of a failed one, purge, atomic reload
+through the shadow table, stop): theorem C09_cache_driven over the RTR model; its tie is the second phase below -
+conversations whose stories are full of reloads run on the real rtr_start thread of /repo and on the extracted model
+(trace equality, callback lines included), and an oracle that replays the callbacks of the real run from the tables
+as dumped before the run and must arrive at the tables as dumped after it (and after every stop)."""
+import time
+
+import rtrsim as R
+import vlib
+from props import pfx_common
+from props.pfx_common import replay as _pfx_replay
+from props import rtr_common
+
+# one entry per query of the client; prefixes m: e: k: s: change the cache first (tools/rtrsim.build_conversation)
+STORIES = [
+    # a reload whose answer holds no prefix at all (keys only / nothing), after data of both kinds was held
+    ["m:truthful", "spurious_reset", "k:truthful", "m:truthful"],
+    ["m:truthful", "spurious_reset", "e:truthful", "m:truthful", "m:truthful"],
+    ["m:truthful", "m:truthful", "s:truthful", "e:truthful", "m:truthful"],
+    # session change with a different set, then deltas
+    ["m:truthful", "s:m:truthful", "m:truthful", "m:truthful"],
+    # reload that fails half-way (shadow tables dropped, nothing reported), then a good one
+    ["m:truthful", "spurious_reset", "trunc_err", "m:truthful"],
+    ["m:truthful", "spurious_reset", "dup_announce", "truthful", "m:truthful"],
+    ["m:truthful", "err_nodata", "m:truthful", "m:truthful"],
+    # delta rolled back (unknown withdrawal after announcements), then the same delta again
+    ["m:truthful", "m:unknown_withdraw", "truthful", "m:truthful"],
+    ["m:truthful", "m:dup_announce", "truthful"],
+    # stop in the middle of a response, restart, reload
+    ["m:truthful", "m:stop", "truthful", "m:truthful"],
+    # expiry-driven purge: nothing but failures for longer than the expire interval
+    ["m:truthful", "timeout", "timeout", "timeout", "close_now", "m:truthful"],
+]
+
+
+def rtr_oracle(tr, script, meta):
+    """Replay of every PFXCB / KEYCB line of the real run, starting from the tables dumped before the run."""
+    lines = tr.lines
+    mirror = None
+    i, n = 0, len(lines)
+    while i < n:
+        l = lines[i]
+        if l.startswith("DUMP "):
+            recs = set()
+            j = i + 1
+            while j < n and lines[j].startswith("REC "):
+                recs.add(lines[j][4:])
+                j += 1
+            if mirror is None:
+                mirror = set(recs)
+            elif recs != mirror:
+                miss = sorted(recs - mirror)[:3]
+                extra = sorted(mirror - recs)[:3]
+                return {"key": "callback-replay", "what": "replaying the update callbacks does not reproduce the tables (%s)" % l.split()[1],
+                        "in_table_not_in_replay": [x[:90] for x in miss], "in_replay_not_in_table": [x[:90] for x in extra], "at": i}
+            i = j
+            continue
+        if l.startswith("PFXCB ") or l.startswith("KEYCB "):
+            if mirror is None:
+                mirror = set()
+            w = l.split()[1]
+            rec = w[1:]
+            if w[0] == "+":
+                if rec in mirror:
+                    return {"key": "callback-replay", "what": "'added' reported for a record that is already present", "at": i, "line": l[:140]}
+                mirror.add(rec)
+            else:
+                if rec not in mirror:
+                    return {"key": "callback-replay", "what": "'removed' reported for a record that is not present", "at": i, "line": l[:140]}
+                mirror.discard(rec)
+        i += 1
+    return None
+
+
+def gen(rnd, k=[0]):
+    i = k[0]
+    k[0] += 1
+    cfg = {"refresh": rnd.choice([1, 30]), "expire": rnd.choice([600, 601]), "retry": rnd.choice([1, 600]), "mode": 0, "ver": 1 if i % 5 else 0,
+           "ivals": (3600, 600, 7200)}
+    if i < 2 * len(STORIES):
+        plan = STORIES[i % len(STORIES)]
+    else:
+        plan = [rnd.choice(["m:truthful", "m:truthful", "truthful", "spurious_reset", "s:m:truthful", "e:truthful", "k:truthful", "err_nodata",
+                            "m:unknown_withdraw", "m:dup_announce", "trunc_err", "m:stop", "timeout", "cr_session", "eod_session"])
+                for _ in range(rnd.randint(4, 9))]
+    return R.build_conversation(rnd, cfg=cfg, plan=plan, plan_pre=True, chunking=None if i < len(STORIES) else rnd.choice([None, 7, "rand"]))
+
+
+def run(chk):
+    pfx_common.run(chk)
+    if chk.violations:
+        return
+    table_cov = dict(chk.cov)
+    pr = chk.proof
+    t0 = time.time()
+    n = 40 if chk.tier == "quick" else 1500
+    budget = 90 if chk.tier == "quick" else 2400
+    rnd = vlib.rng(909)
+    gen.__defaults__[0][0] = 0
+    dist, nrun, bad = {}, 0, None
+    reloads = 0
+    for _ in range(n):
+        if time.time() - t0 > budget:
+            chk.notes.append("RTR phase: time budget reached after %d conversations" % nrun)
+            break
+        s, meta = gen(rnd)
+        lines = s.lines()
+        rc, a = R.run_impl(lines)
+        rc2, b = R.run_model(lines)
+        nrun += 1
+        for x in meta["exchanges"]:
+            dist[x] = dist.get(x, 0) + 1
+        tr = R.Trace(a)
+        reloads += sum(1 for l in a if "resetting=1" in l) + sum(1 for x in meta["exchanges"] if x in ("spurious_reset", "err_nodata"))
+        d = R.first_diff(a, b)
+        if tr.crash:
+            bad = (s, meta, "crash", {"what": "abort in the Impl run", "detail": tr.crash[-1200:]})
+        elif d:
+            bad = (s, meta, "tie", {"what": "Impl and Model traces differ", "index": d[0], "impl": d[1][:300], "model": d[2][:300]})
+        else:
+            o = rtr_oracle(tr, s, meta)
+            if o:
+                bad = (s, meta, "spec", o)
+        if bad:
+            break
+    chk.cov = table_cov
+    chk.cov["evaluations"] = table_cov.get("evaluations", 0) + nrun
+    chk.cov["rtr_phase"] = {
+        "conversations": nrun, "stories": len(STORIES), "exchanges": dist, "reload_triggers": reloads,
+        "rule": "told and random stories of reloads / rollbacks / purges / stops (cache simulator with the model in the loop) on the real "
+                "rtr_start thread of /repo and on the extracted model; traces equal line by line; replay of the real run's callbacks from the "
+                "initial dump reproduces every later dump",
+    }
+    chk.cov["tie"] = table_cov.get("tie", "") + "; cache-driven changes: (b) trace equality rtr_run.c vs extracted RtrModel + callback replay of the real trace"
+    if bad:
+        s, meta, kind, info = bad
+
+        def failing(sc):
+            rc, a = R.run_impl(sc.lines())
+            rc2, b = R.run_model(sc.lines())
+            tr = R.Trace(a)
+            if kind == "crash":
+                return bool(tr.crash)
+            if kind == "tie":
+                return bool(R.first_diff(a, b))
+            return bool(not tr.crash and rtr_oracle(tr, sc, meta))
+        small = R.shrink_script(s, failing)
+        chk.violation({"kind": "rtr-" + kind, "script": small.lines(), "exchanges": meta["exchanges"], "detail": info,
+                       "proof": pr.broken if pr is not None else None,
+                       "replay_cmd": "python3 tools/check.py C09 --replay <this file>"},
+                      key=info.get("key") if isinstance(info, dict) else None)
+
+
+def replay(path):
+    import json
+    o = json.load(open(path))
+    if str(o.get("kind", "")).startswith("rtr-"):
+        return rtr_common.replay_script(path, rtr_oracle)
+    return _pfx_replay(path)
